@@ -70,7 +70,8 @@ class Trace:
 
 
 class FDE:
-    def __init__(self, repo, func, attr_env: dict, enum_classes=(), env=None, inline=False, depth=0):
+    def __init__(self, repo, func, attr_env: dict, enum_classes=(), env=None, inline=False, depth=0, hooks=None):
+        self.hooks = hooks or {}
         self.repo = repo
         self.func = func
         self.attr = dict(attr_env)
@@ -100,6 +101,9 @@ class FDE:
             for t in st.targets:
                 if isinstance(t, ast.Name):
                     self.env[t.id] = v
+                elif isinstance(t, (ast.Tuple, ast.List)) and isinstance(v, (list, tuple)) and len(v) == len(t.elts) and all(isinstance(x, ast.Name) for x in t.elts):
+                    for x, val in zip(t.elts, v):
+                        self.env[x.id] = val
                 else:
                     d = dotted(t)
                     if d:
@@ -172,7 +176,19 @@ class FDE:
                     out.append(self.ev(x))
             return out
         if isinstance(e, ast.Dict):
-            return {self._key(k): self.ev(v) for k, v in zip(e.keys, e.values)}
+            out = {}
+            for k, v in zip(e.keys, e.values):
+                kv = self.ev(k) if k is not None and not isinstance(k, ast.Constant) else None
+                key = self._key(k) if kv is None or isinstance(kv, (Unknown, list, dict)) else kv
+                out[key] = self.ev(v)
+            return out
+        if isinstance(e, ast.Subscript) and not isinstance(e.slice, ast.Slice):
+            base, key = self.ev(e.value), self.ev(e.slice)
+            if isinstance(base, dict) and not isinstance(key, (Unknown, list, dict)):
+                return base[key] if key in base else Unknown(f"KeyError {key!r}")
+            if isinstance(base, (list, tuple)) and isinstance(key, int) and not (base and base[0] == "call") and -len(base) <= key < len(base):
+                return base[key]
+            return Unknown(norm(e))
         if isinstance(e, ast.UnaryOp) and isinstance(e.op, ast.Not):
             v = self.ev(e.operand)
             return v if isinstance(v, Unknown) else (not v)
@@ -210,6 +226,19 @@ class FDE:
         if isinstance(e, ast.Call):
             name = call_name(e)
             args = [self.ev(a) for a in e.args]
+            if name in self.hooks:
+                self.trace.calls.append((name, args))
+                return self.hooks[name](args)
+            if isinstance(e.func, ast.Attribute) and e.func.attr == "get" and 1 <= len(args) <= 2:
+                base = self.ev(e.func.value)
+                if isinstance(base, dict) and not isinstance(args[0], (Unknown, list, dict)):
+                    return base.get(args[0], args[1] if len(args) > 1 else None)
+            if isinstance(e.func, (ast.Name, ast.Attribute)):
+                target = self.ev(e.func) if isinstance(e.func, ast.Name) else None
+                if isinstance(target, ClsTok):
+                    kwargs = {k.arg: self.ev(k.value) for k in e.keywords if k.arg}
+                    self.trace.calls.append((target.name, args))
+                    return ("new", target.name, tuple(args), tuple(sorted(kwargs.items(), key=lambda kv: kv[0])))
             if name is None and isinstance(e.func, ast.Call):
                 inner = self.ev(e.func)
                 val = ("instance", inner, args)
@@ -222,7 +251,7 @@ class FDE:
                     callee = self.func.cls.methods.get(mname[len(self.func.cls.name) + 1:])
                 if callee is not None:
                     params = [a.arg for a in callee.node.args.args[1:]]
-                    sub = FDE(self.repo, callee, self.attr, self.enum_classes, env=dict(zip(params, args)), inline=True, depth=self.depth + 1)
+                    sub = FDE(self.repo, callee, self.attr, self.enum_classes, env=dict(zip(params, args)), inline=True, depth=self.depth + 1, hooks=self.hooks)
                     tr = sub.run()
                     return tr.returned
             return ("call", name, args)
